@@ -1,3 +1,3 @@
 SPECIFICATION Spec
-CONSTANTS Lines <- Id6  Prog <- ProgAdjacent  BpSets <- BpsAdjacent  MaxReq = 2  Deviations <- NextDev  Fuel = 60
+CONSTANTS LibLines <- NoLib  Lines <- Id6  Prog <- ProgAdjacent  BpSets <- BpsAdjacent  MaxReq = 2  Deviations <- NextDev  Fuel = 60
 INVARIANT StepExact
